@@ -111,6 +111,19 @@ func (r *scriptRunner) exit() {
 	})
 }
 
+// exitKeepingSockets is a process death the kernel does not announce on the plugin's connections: a child of the
+// plugin inherited the descriptors (a helper forked without close-on-exec) and lives on, or the plugin ran in a VM
+// that was destroyed without FIN/RST. The process is gone (Wait returns), its pipes are closed, nothing of it runs any
+// more, but its sockets stay open and silent.
+func (r *scriptRunner) exitKeepingSockets() {
+	r.exitOnce.Do(func() {
+		r.stdout.Close()
+		r.stderr.Close()
+		r.dom.Freeze()
+		close(r.exited)
+	})
+}
+
 func (r *scriptRunner) hasExited() bool {
 	select {
 	case <-r.exited:
